@@ -32,6 +32,9 @@ pub mod verif {
     thread_local! {
         pub static VALUE_PASSES: Cell<Option<usize>> = Cell::new(None);
         pub static DEGREE_PASSES: Cell<Option<usize>> = Cell::new(None);
+        /// The number of passes the last run of each propagation loop performed.
+        pub static VALUE_PASSES_RUN: Cell<usize> = Cell::new(0);
+        pub static DEGREE_PASSES_RUN: Cell<usize> = Cell::new(0);
     }
     pub(super) fn exhausted(budget: &'static std::thread::LocalKey<Cell<Option<usize>>>, passes: usize) -> bool {
         budget.with(|b| matches!(b.get(), Some(max) if passes >= max))
@@ -483,6 +486,8 @@ impl Cfg {
                 rerun = false;
             }
         }
+        #[cfg(feature = "verif")]
+        verif::DEGREE_PASSES_RUN.with(|count| count.set(passes));
     }
 
     /// For each basic block, returns the blocks ending in an if-statement which
@@ -581,6 +586,8 @@ impl Cfg {
                 rerun = false;
             }
         }
+        #[cfg(feature = "verif")]
+        verif::VALUE_PASSES_RUN.with(|count| count.set(passes));
     }
 
     /// Propagate variable types along the CFG.
